@@ -76,19 +76,26 @@ def insertEv (i e : Nat) (head : Bool) (w : W) : W :=
       else w
     setPool w1 i (insBuf e head)
 
+/-- `new_serial(GlobalSerial)` as `_acceptEvent` calls it: which counter is drawn from is read off the source -/
+def evSerial (w : W) (pool : PoolSt) : Int := newSerial (acceptSer_c0_0 w.gserial pool.serial)
+/-- `new_serial(self)` as `_acceptEvent` calls it -/
+def poolSerial (w : W) (pool : PoolSt) : Int := newSerial (acceptSer_c1_0 w.gserial pool.serial)
+
 /-- `EventListenerPool._acceptEvent(event, head)` for pool `i` and event id `e` -/
 def acceptEvent (i e : Nat) (head : Bool) (w : W) : W :=
   match w.pools[i]?, w.events[e]? with
   | some pool, some ev =>
-    -- serial
+    -- serial: `event.serial = new_serial(GlobalSerial)` -- the counter handed to `new_serial` is the generated
+    -- `acceptSer_c0_0` (the value of whatever object the source passes)
     let w1 := if ev.serial.isNone then
-        { setEv w e (fun x => { x with serial := some (newSerial w.gserial) }) with gserial := newSerial w.gserial }
+        { setEv w e (fun x => { x with serial := some (evSerial w pool) }) with gserial := evSerial w pool }
       else w
     let inPS := (ev.poolSerials.lookup pool.name).isSome
     let len : Int := pool.buffer.length
     if accept_g2 true true inPS head len pool.bufSize (!pool.buffer.isEmpty) then
-      let w2 := setEv w1 e (fun x => { x with poolSerials := x.poolSerials ++ [(pool.name, newSerial pool.serial)] })
-      let w3 := setPool w2 i (fun p => { p with serial := newSerial p.serial })
+      -- `event.pool_serials[self.config.name] = new_serial(self)` (generated `acceptSer_c1_0`)
+      let w2 := setEv w1 e (fun x => { x with poolSerials := x.poolSerials ++ [(pool.name, poolSerial w1 pool)] })
+      let w3 := setPool w2 i (fun p => { p with serial := poolSerial w1 p })
       insertEv i e head w3
     else if accept_g3 true true inPS head len pool.bufSize (!pool.buffer.isEmpty) then w1   -- already accepted
     else insertEv i e head w1
